@@ -4,11 +4,12 @@
    model, impl |-> the observation record].  The verdict table is written back as JSON. *)
 EXTENDS TransformPreview, Json, IOUtils
 Rows == JsonDeserialize(IOEnv.VF_IN)
-SpecOf(j) == [kinds |-> [bzr |-> Rng(j.kinds.bzr), git |-> Rng(j.kinds.git)], final |-> Rng(j.final)]
+SpecOf(j) == [kinds |-> [bzr |-> Rng(j.kinds.bzr), git |-> Rng(j.kinds.git)],
+              final |-> [bzr |-> Rng(j.final.bzr), git |-> Rng(j.final.git)]]
 ImplOf(j) == [build |-> j.build, raw |-> Rng(j.raw), resolve |-> j.resolve, passes |-> j.passes, preview |-> j.preview,
               apply |-> j.apply, unchanged |-> j.unchanged, preview_tree |-> Rng(j.preview_tree),
               applied_tree |-> Rng(j.applied_tree), applied_full |-> Rng(j.applied_full)]
-Judge(r) == LET i == ImplOf(r.impl) IN [failed |-> SetToSeq(PFailed(i)), drift |-> SetToSeq(PDrift(SpecOf(r.spec), r.fl, i))]
+Judge(r) == LET i == ImplOf(r.impl) IN [failed |-> SetToSeq(PFailed(r.fl, i)), drift |-> SetToSeq(PDrift(SpecOf(r.spec), r.fl, i))]
 Bad == SelectSeq([k \in 1..Len(Rows) |-> [row |-> k] @@ Judge(Rows[k])], LAMBDA x : x.failed # <<>> \/ x.drift # <<>>)
 \* run with MaxOps = 0 (one state): only this table is evaluated
 ASSUME JsonSerialize(IOEnv.VF_OUT, [n |-> Len(Rows), bad |-> Bad])
